@@ -132,12 +132,12 @@ func codeObject(cfg regCfg) *insts.KernelCodeObject {
 }
 
 type regCfg struct {
-	name                                                   string
-	version                                                insts.CodeObjectVersion
-	privSegBuf, dispatchPtr, queuePtr, kernargPtr          bool
-	dispatchID, flatScratch, privSegSize, gridCount        bool
-	wgIDs                                                  int // 1..3 work-group id SGPRs enabled (x, xy, xyz)
-	vgprIDs                                                int // 0..2 (x, xy, xyz)
+	name                                            string
+	version                                         insts.CodeObjectVersion
+	privSegBuf, dispatchPtr, queuePtr, kernargPtr   bool
+	dispatchID, flatScratch, privSegSize, gridCount bool
+	wgIDs                                           int // 1..3 work-group id SGPRs enabled (x, xy, xyz)
+	vgprIDs                                         int // 0..2 (x, xy, xyz)
 }
 
 var regCfgs = []regCfg{
@@ -234,12 +234,17 @@ func wgClass(wg *kernels.WorkGroup) (cls, dims string) {
 type gridResult struct {
 	wgs []*kernels.WorkGroup
 	v   *viol
+	// spans: the work-group-local wavefront formation defect was seen; the
+	// remaining checks of the geometry (other work-groups, counts, Skip) were
+	// still made, only the lane coverage of the malformed work-group is not judged
+	spans *viol
 }
 
 // checkGrid drives the real grid builder over the whole grid without a filter.
 func checkGrid(g geom, co *insts.KernelCodeObject) gridResult {
+	var spans *viol
 	mk := func(sig, f string, a ...any) gridResult {
-		return gridResult{v: &viol{sig: sig, msg: g.String() + ": " + fmt.Sprintf(f, a...), rc: replayCase{Kind: "grid", Geom: g}, weight: weight(g)}}
+		return gridResult{v: &viol{sig: sig, msg: g.String() + ": " + fmt.Sprintf(f, a...), rc: replayCase{Kind: "grid", Geom: g}, weight: weight(g)}, spans: spans}
 	}
 	pkt := g.packet()
 	gb := kernels.NewGridBuilder()
@@ -256,7 +261,9 @@ func checkGrid(g geom, co *insts.KernelCodeObject) gridResult {
 	sx, sy, sz := int(g.W[0]), int(g.W[1]), int(g.W[2])
 	seenWG := make([]bool, exp)
 	cover := make([]uint8, g.items())
+	anyMalformed := false
 	for _, wg := range wgs {
+		malformed := false
 		if wg.IDX < 0 || wg.IDX >= nx || wg.IDY < 0 || wg.IDY >= ny || wg.IDZ < 0 || wg.IDZ >= nz {
 			return mk("gridbuilder/wg/id-outside-grid", "work-group id (%d,%d,%d) outside %dx%dx%d", wg.IDX, wg.IDY, wg.IDZ, nx, ny, nz)
 		}
@@ -301,14 +308,22 @@ func checkGrid(g geom, co *insts.KernelCodeObject) gridResult {
 				flat := it.IDX + it.IDY*sx + it.IDZ*sx*sy
 				lane := flat - wf.FirstWiFlatID
 				if lane < 0 || lane >= 64 {
-					return mk("gridbuilder/"+cls+"/wavefront-spans-several-64-blocks/"+dims,
+					sp := mk("gridbuilder/"+cls+"/wavefront-spans-several-64-blocks/"+dims,
 						"work-group (%d,%d,%d) (current size %dx%dx%d of %dx%dx%d) wavefront %d starts at flat id %d, has %d work-items, EXEC %016x, and contains work-item (%d,%d,%d) with flat id %d: that is wavefront %d lane %d of the ISA mapping; the lane registers (flat = first+lane) will describe other coordinates",
 						wg.IDX, wg.IDY, wg.IDZ, cx, cy, cz, sx, sy, sz, wi, wf.FirstWiFlatID, len(wf.WorkItems), wf.InitExecMask, it.IDX, it.IDY, it.IDZ, flat, flat/64, flat%64)
+					if spans == nil {
+						spans = sp.v
+					}
+					malformed = true
+					break
 				}
 				if mask&(1<<uint(lane)) != 0 {
 					return mk("gridbuilder/"+cls+"/work-item-twice-in-wavefront/"+dims, "work-item (%d,%d,%d) of work-group (%d,%d,%d)", it.IDX, it.IDY, it.IDZ, wg.IDX, wg.IDY, wg.IDZ)
 				}
 				mask |= 1 << uint(lane)
+			}
+			if malformed {
+				break
 			}
 			if len(wf.WorkItems) > 64 || len(wf.WorkItems) == 0 {
 				return mk("gridbuilder/"+cls+"/wavefront-with-"+map[bool]string{true: "no", false: "more-than-64"}[len(wf.WorkItems) == 0]+"-work-items/"+dims,
@@ -336,17 +351,24 @@ func checkGrid(g geom, co *insts.KernelCodeObject) gridResult {
 				cover[ci] = 1
 			}
 		}
+		if malformed {
+			anyMalformed = true
+			continue
+		}
 		if inWf != len(wg.WorkItems) {
 			return mk("gridbuilder/"+cls+"/work-items-not-in-a-wavefront/"+dims, "work-group (%d,%d,%d): %d work-items, %d in wavefronts", wg.IDX, wg.IDY, wg.IDZ, len(wg.WorkItems), inWf)
 		}
 	}
 	for i, c := range cover {
+		if anyMalformed {
+			break
+		}
 		if c == 0 {
 			gx, gy, gz := i%int(g.G[0]), i/int(g.G[0])%int(g.G[1]), i/int(g.G[0])/int(g.G[1])
 			return mk("gridbuilder/grid/work-item-never-executed", "global id (%d,%d,%d) is enabled in no lane", gx, gy, gz)
 		}
 	}
-	return gridResult{wgs: wgs}
+	return gridResult{wgs: wgs, spans: spans}
 }
 
 func sameWG(a, b *kernels.WorkGroup) bool {
@@ -566,7 +588,7 @@ func checkRegInit(g geom, cfg regCfg, pl int, rig *timingRig, lanes *int64) *vio
 	}
 	co := codeObject(cfg)
 	res := checkGrid(g, co)
-	if res.v != nil {
+	if res.v != nil || res.spans != nil {
 		return nil // the builder's own defect is reported by the grid pass; registers of a malformed wavefront are not judged
 	}
 	for _, mode := range []string{"emu", "timing"} {
@@ -619,7 +641,7 @@ func driverFilters(g geom, cus []int) (reqs []*protocol.LaunchKernelReq, err str
 		}
 	}()
 	engine := sim.NewSerialEngine()
-	d := driver.MakeBuilder().WithEngine(engine).WithLog2PageSize(12).WithPageTable(vm.NewPageTable(12)).Build("Driver")
+	d := driver.MakeBuilder().WithEngine(engine).WithLog2PageSize(26).WithPageTable(vm.NewPageTable(26)).Build("Driver")
 	var ids []int
 	for i, n := range cus {
 		p := sim.NewPort(d, 4, 4, fmt.Sprintf("GPU[%d].CP", i+1))
@@ -790,12 +812,12 @@ func geometries(thorough bool) []geom {
 		cross(u32(rng(1, 20)...), u32(rng(1, 6)...), one32, u16(rng(1, 20)...), u16(rng(1, 6)...), one16, &out, seen)
 		return out
 	}
-	cross(u32(append(rng(1, 300), 511, 512, 513, 1000, 1023, 1024, 1025, 2047, 2048, 2049, 4097, 65537)...), one32, one32, u16(append(rng(1, 130), 255, 256, 257, 511, 512, 513, 1023, 1024)...), one16, one16, &out, seen)
-	cross(u32(xAlpha...), u32(1, 2, 3, 4, 5, 7, 8, 15, 16, 17, 33), one32, u16(xAlpha...), u16(1, 2, 3, 4, 5, 7, 8, 15, 16, 17, 32, 33, 64), one16, &out, seen)
-	cross(u32(1, 2, 3, 5, 8, 15, 16, 17, 48, 63, 64, 65, 100, 128), u32(1, 2, 3, 4, 5, 8, 17), u32(1, 2, 3, 4, 5),
-		u16(1, 2, 3, 5, 8, 15, 16, 17, 48, 63, 64, 65, 100, 128), u16(1, 2, 3, 4, 5, 8, 16), u16(1, 2, 3, 4, 5), &out, seen)
-	cross(u32(rng(1, 24)...), u32(rng(1, 7)...), one32, u16(rng(1, 24)...), u16(rng(1, 7)...), one16, &out, seen)
-	cross(u32(rng(1, 9)...), u32(rng(1, 5)...), u32(rng(1, 4)...), u16(rng(1, 9)...), u16(rng(1, 5)...), u16(rng(1, 4)...), &out, seen)
+	cross(u32(append(rng(1, 600), 1000, 1023, 1024, 1025, 2047, 2048, 2049, 4097, 65537)...), one32, one32, u16(append(rng(1, 130), 255, 256, 257, 511, 512, 513, 1023, 1024)...), one16, one16, &out, seen)
+	x2 := append(append([]int{}, xAlpha...), 31, 32, 33, 47, 49, 96, 127, 129, 200)
+	cross(u32(x2...), u32(1, 2, 3, 4, 5, 6, 7, 8, 15, 16, 17, 31, 32, 33), one32, u16(x2...), u16(1, 2, 3, 4, 5, 6, 7, 8, 15, 16, 17, 32, 33, 64), one16, &out, seen)
+	cross(u32(xAlpha...), u32(1, 2, 3, 4, 5, 8, 17), u32(1, 2, 3, 4, 5), u16(xAlpha...), u16(1, 2, 3, 4, 5, 8, 16), u16(1, 2, 3, 4, 5), &out, seen)
+	cross(u32(rng(1, 40)...), u32(rng(1, 8)...), one32, u16(rng(1, 40)...), u16(rng(1, 8)...), one16, &out, seen)
+	cross(u32(rng(1, 10)...), u32(rng(1, 6)...), u32(rng(1, 4)...), u16(rng(1, 10)...), u16(rng(1, 6)...), u16(rng(1, 4)...), &out, seen)
 	return out
 }
 
@@ -904,6 +926,7 @@ func main() {
 		res := checkGrid(g, baseCO)
 		atomic.AddInt64(&nGeom, 1)
 		atomic.AddInt64(&nItems, int64(g.items()))
+		col.add(res.spans)
 		if res.v != nil {
 			col.add(res.v)
 			return
@@ -925,7 +948,9 @@ func main() {
 		if g.G[2] > 1 || g.W[2] > 1 {
 			dim = 3
 		}
-		classes.Store(fmt.Sprintf("%dD/partial=%v/row-pow2=%v/wg>64=%v", dim, part > 0, g.W[0]&(g.W[0]-1) == 0, g.wgItems() > 64), true)
+		if res.spans == nil {
+			classes.Store(fmt.Sprintf("%dD/partial=%v/row-pow2=%v/wg>64=%v", dim, part > 0, g.W[0]&(g.W[0]-1) == 0, g.wgItems() > 64), true)
+		}
 		if g.items() <= 1<<15 {
 			var n int64
 			col.add(checkSkip(g, baseCO, res.wgs, &n))
@@ -1056,7 +1081,11 @@ func replay(r *harness.Run) {
 	run := func() *viol {
 		switch c.Kind {
 		case "grid":
-			return checkGrid(c.Geom, baseCO).v
+			res := checkGrid(c.Geom, baseCO)
+			if res.v != nil {
+				return res.v
+			}
+			return res.spans
 		case "skip":
 			res := checkGrid(c.Geom, baseCO)
 			if res.v != nil {
